@@ -395,7 +395,7 @@ func (u *Unmarshaler) generateMap(keyType, elemType reflect.Type, mapValue any,
 					return emptyValue, errTypeMismatch
 				}
 
-				targetValue.SetMapIndex(key, reflect.ValueOf(v))
+				SetMapIndexValue(elemType, targetValue, key, reflect.ValueOf(v))
 			case string:
 				if dereffedElemKind != reflect.String {
 					return emptyValue, errTypeMismatch
@@ -406,14 +406,14 @@ func (u *Unmarshaler) generateMap(keyType, elemType reflect.Type, mapValue any,
 					return emptyValue, errTypeMismatch
 				}
 
-				targetValue.SetMapIndex(key, val)
+				SetMapIndexValue(elemType, targetValue, key, val)
 			case json.Number:
 				target := reflect.New(dereffedElemType)
 				if err := setValueFromString(dereffedElemKind, target.Elem(), v.String()); err != nil {
 					return emptyValue, err
 				}
 
-				targetValue.SetMapIndex(key, target.Elem())
+				SetMapIndexValue(elemType, targetValue, key, target.Elem())
 			default:
 				if dereffedElemKind != keythValue.Kind() {
 					return emptyValue, errTypeMismatch
